@@ -28,7 +28,7 @@ EXPLANATION = (
     "NOT decided: equality of failure_cases with the set of offending cells."
 )
 LEVEL_RULE = "one obligation per handler / lazy use / validate method / fenced call"
-FLOORS = {"R1": 4, "R2": 20, "R3": 12, "R4": 6, "R5": 3, "R6": 6, "R7": 5, "R8": 1, "R9": 3}
+FLOORS = {"R1": 4, "R2": 20, "R3": 12, "R4": 6, "R5": 3, "R6": 6, "R7": 5, "R8": 1, "R9": 3, "R10": 1}
 
 EH = "pandera/api/base/error_handler.py::ErrorHandler"
 # A handler may drop the caught SchemaError only when the fenced body does nothing but expand a regex column name:
@@ -537,7 +537,81 @@ def r9_case_attribution(ctx):
                    "eager mode - lazy validation can return normally where eager validation raises")
 
 
+R10_SELFTEST = """
+def bad(schema, obj, handler):
+    try:
+        for col in schema.columns.values():
+            obj = col.dtype.try_coerce(obj)
+    except ParserError as exc:
+        handler.collect_error(exc)
+    return obj
+
+def good(schema, obj, handler):
+    for col in schema.columns.values():
+        try:
+            obj = col.dtype.try_coerce(obj)
+        except ParserError as exc:
+            handler.collect_error(exc)
+    return obj
+"""
+
+
+def _collecting_try_around_loop(fn_node):
+    out = []
+    for t in walk_no_nested(fn_node):
+        if not isinstance(t, ast.Try):
+            continue
+        collecting = [h for h in t.handlers if any(callee_last(c) in ("collect_error", "collect_errors") for c in calls_in(h))
+                      and not any(isinstance(x, ast.Raise) for b in h.body for x in ast.walk(b))]
+        if not collecting:
+            continue
+        loops = []
+        todo = list(t.body)
+        while todo:
+            st = todo.pop()
+            if isinstance(st, (ast.For, ast.While)):
+                loops.append(st)
+            elif isinstance(st, (ast.If, ast.With)):
+                todo += list(st.body) + list(getattr(st, "orelse", []))
+        for lp in loops:
+            # the loop body itself has no inner try that collects: one failure ends the loop
+            inner = [x for x in ast.walk(lp) if isinstance(x, ast.Try) and any(
+                callee_last(c) in ("collect_error", "collect_errors") for h in x.handlers for c in calls_in(h))]
+            if not inner and any(isinstance(x, ast.Call) for x in ast.walk(lp)):
+                out.append((t, lp, collecting[0]))
+    return out
+
+
+def r10_collect_per_element(ctx):
+    """Lazy validation reports *every* failure.  A handler that collects an error and carries on must therefore sit
+    inside the loop over the things being validated: a single try around the whole loop ends the loop at the first
+    failing element, so the failures of the remaining columns never reach the report (and later stages run on a
+    half-processed object and report errors that the eager run does not have)."""
+    import ast as _ast
+    t = _ast.parse(R10_SELFTEST)
+    for nd in _ast.walk(t):
+        for c in _ast.iter_child_nodes(nd):
+            c._parent = nd  # type: ignore[attr-defined]
+    got = {fn.name: len(_collecting_try_around_loop(fn)) for fn in t.body}
+    if got != {"bad": 1, "good": 0}:
+        raise AnalysisError(f"C02.R10 self-test failed: {got}")
+    n = 0
+    first = None
+    for m in ctx.ix.modules.values():
+        if not m.path.startswith(("pandera/backends/pandas/", "pandera/backends/polars/")):
+            continue
+        for f in m.all_functions:
+            n += 1
+            first = first or f
+            for t_, lp, h in _collecting_try_around_loop(f.node):
+                ctx.ob("R10", f, f"{f.short}: errors of `for {txt(lp.target)} in {txt(lp.iter)[:40]}` are collected per element", False,
+                       f"the collecting `except {txt(h.type) if h.type is not None else ''}` (line {h.lineno}) encloses the whole loop (line {lp.lineno}): the first element "
+                       "that fails ends the loop, the failures of the remaining elements are missing from the lazy report", f.loc(lp))
+    ctx.ob("R10", first, "collecting handlers sit inside the loops they guard (pandas and polars backends)", True, f"{n} functions analysed")
+
+
 def run(ctx):
+    r10_collect_per_element(ctx)
     r9_case_attribution(ctx)
     r8_per_column_schema(ctx)
     r7_column_attribution(ctx)
